@@ -250,4 +250,30 @@ instance {ε α} [DecidableEq ε] [DecidableEq α] : DecidableEq (Except ε α) 
   | .ok _, .error _ => isFalse (by intro e; cases e)
   | .error _, .ok _ => isFalse (by intro e; cases e)
 
+
+theorem split1_none (sep : UInt8) : ∀ (t : Bytes), sep ∉ t → split1 sep t = [t]
+  | [], _ => rfl
+  | x :: t, h => by
+    have hx : x ≠ sep := fun e => h (by simp [e])
+    simp [split1, hx, split1_none sep t (fun m => h (by simp [m]))]
+
+theorem idx_some_of_mem (x : UInt8) : ∀ (t : Bytes), x ∈ t → ∃ i, idx x t = some i ∧ i < t.length
+  | [], h => by simp at h
+  | y :: t, h => by
+    by_cases e : y = x
+    · exact ⟨0, by simp [idx, e], by simp⟩
+    · have : x ∈ t := by simpa [Ne.symm e] using h
+      obtain ⟨i, hi, hl⟩ := idx_some_of_mem x t this
+      exact ⟨i + 1, by simp [idx, e, hi], by simpa using hl⟩
+
+theorem takeWhile_append_sep (sep : UInt8) (e r : Bytes) (h : sep ∉ e) :
+    (e ++ sep :: r).takeWhile (· ≠ sep) = e := by
+  induction e with
+  | nil => simp
+  | cons x e ih =>
+    have hx : x ≠ sep := fun eq => h (by simp [eq])
+    have := ih (fun m => h (by simp [m]))
+    simp only [ne_eq, decide_not] at this
+    simp [List.takeWhile, hx, this]
+
 end BreezyVerif.C34
